@@ -18,6 +18,13 @@ def queries():
                         defs=['ALGO=%d' % a, 'NMIN=%d' % (edge - 1), 'NMAX=%d' % edge, 'TRIPLE', 'TLX_VERIF_DIGEST_HOOK'], link=src, ll2c=['--alloc-cap', '256'], tiers=('thorough',), timeout=3600, unwind=4, max_unwind=300))
         qs.append(Query('%s_hexforms' % nm, 'C14_digest.cpp', 'h_hexforms', '%s: digest(), digest_hex(), digest_hex_uc(), %s_hex(), %s_hex_uc() serialise the final state; message length 5' % (nm.upper(), nm, nm),
                         defs=['ALGO=%d' % a, 'NMAX=5', 'TLX_VERIF_DIGEST_HOOK'], link=src, ll2c=['--alloc-cap', '256'], timeout=1200, unwind=4, max_unwind=300))
+    import os
+    ref = os.path.join(os.path.dirname(os.path.dirname(os.path.dirname(os.path.abspath(__file__)))), 'harness', 'C14_sipref.c')
+    for ln in range(0, 25):
+        for off in ((0, 3) if ln in (7, 8, 9, 16) else (0,)):
+            quick = ln in (0, 1, 7, 8, 9, 15, 16) and off == 0 or (ln == 9 and off == 3)
+            qs.append(Query('siphash_len%d_off%d' % (ln, off), 'C14_siphash.cpp', 'h_siphash', 'siphash_plain, siphash_sse2, siphash() vs SipHash-2-4 reference: all 128-bit keys, message length %d, start offset %d mod 8, all byte values' % (ln, off),
+                            defs=['LEN=%d' % ln, 'OFF=%d' % off], extra_c=['C14_sipref.c'], native_extra=[ref], tiers=('quick', 'thorough') if quick else ('thorough',), timeout=1800, unwind=10, weight=ln))
     return qs
 
 ASSUMPTIONS = ['obligation 1 replaces the compression function by a recorder through the guarded hook TLX_VERIF_DIGEST_HOOK (fresh symbolic output state per call): it decides buffering, padding, chaining and serialisation for every chunking, not the round function',
